@@ -35,6 +35,8 @@ def _case(draw):
                             int_widths=(8, 16, 16, 32)))
     D = len(spec['widths'])
     spec['col_kind'] = [draw(st.sampled_from(['uniform', 'uniform', 'small', 'const', 'ramp'])) for _ in range(D)]
+    if spec['datatype'] == 'I' and D >= 2 and draw(st.integers(0, 5)) == 0:
+        spec['col_kind'] = ['stair'] * D        # neighbouring channels share an extreme value (ties across channels)
     if draw(st.booleans()):
         spec['n'] = draw(st.integers(1, 6))
     spec['vmin'] = draw(st.sampled_from([0, 1, 1]))
